@@ -49,9 +49,7 @@ pub fn parse_ops(s: &str) -> Vec<Op> {
 }
 
 fn debug_len(c: &LimitedCache<u64, u64>) -> u64 {
-	let s = format!("{c:?}");
-	let i = s.find("length: ").unwrap() + 8;
-	s[i..].split(|ch: char| !ch.is_ascii_digit()).next().unwrap().parse().unwrap()
+	c.verif_len() as u64
 }
 
 #[derive(Debug, Clone, PartialEq)]
@@ -509,9 +507,7 @@ fn pm_reader_transparency(args: &Args, out: &mut Out, rng: &mut Rng) {
 // ---------- byte budget → capacity (`with_maximum_size`) ----------
 
 fn any_debug_len<K: std::fmt::Debug, V: std::fmt::Debug>(c: &LimitedCache<K, V>) -> u64 {
-	let s = format!("{c:?}");
-	let i = s.find("length: ").unwrap() + 8;
-	s[i..].split(|ch: char| !ch.is_ascii_digit()).next().unwrap().parse().unwrap()
+	c.verif_len() as u64
 }
 
 /// Builds a cache with the given byte budget for the pair type (K, V), inserts `n` distinct keys and watches the
